@@ -914,9 +914,11 @@ class XPathToken(Token[ta.XPathTokenType]):
             elif math.isinf(obj):
                 return str(obj).upper()
 
-            value = str(obj)
-            if '.' in value:
-                value = value.rstrip('0').rstrip('.')
+            mantissa, sep, exponent = str(obj).partition('e')
+            if '.' in mantissa:
+                # remove the trailing zeros of the mantissa only (not of the exponent)
+                mantissa = mantissa.rstrip('0').rstrip('.')
+            value = mantissa + sep + exponent
             if '+' in value:
                 value = value.replace('+', '')
             if 'e' in value:
